@@ -75,7 +75,7 @@ TEXT = {
    technique="Lean 4 proof (positional numerals for toInt incl. uint64 no-overflow, exact integer logarithm, bit-plane lane test soundness and no-pass-over for all planes, sequential mining) with regenerated constants/translated tritToUint/source snapshots and differential correspondence through exported internals",
    text="Lean theorems: maxHash = 3^243, uint64Radix = 3^40; toInt = base-3 value + 1 with no uint64 overflow; Score = min(floor(floor(3^243/h)/len), 2^64-1); sufficientTrailingZeros = least s with 3^s >= len*t (wrapping loop = exact loop); "
         "for ALL 64-lane plane states and 8 <= len*t < 2^64: a lane returned by checkStateTrits has floor(3^243/h) >= len*t (hence Score >= t) and a lane with floor(3^243/h) > len*t is never passed over; single-worker mining returns the first accepting block.",
-   note="Trusted: Lean kernel; extractor+harness; BLAKE2b and iota.go curl/bct (external; re-scored through an independent Lean pipeline); math/big. Observation outside the property's quantifier: the overflow guard of sufficientTrailingZeros admits products in [2^64, 2^64+len-2] (documented in DESIGN.md)."),
+   note="Trusted: Lean kernel; extractor+harness; BLAKE2b and iota.go curl/bct (external; re-scored through an independent Lean pipeline); math/big. F10 (overflow guard off by one: products in [2^64, 2^64+len-2] passed) was found by the statement audit and fixed in /repo."),
  "C02": dict(ref="DESIGN.md §5 C02/C08",
    technique="Lean 4 proof of the repository's derivation logic for every curve value (retry loops with fuel = SLIP-0010's first-valid-candidate sequence; CKD inputs; path concatenation; error cases), primitives as parameters; source-snapshot tie; differential correspondence incl. pluggable high-rejection curves",
    text="Lean theorems for every Curve value: NewMasterKey = first valid candidate of I0 = HMAC(curve key, S), I(n+1) = HMAC(curve key, In) (iff characterisation); CKD uses 0x00||ser256(k)||ser32(i) resp. serP(point(k))||ser32(i); child key = Shift(parent, IL), chain code IR, "
